@@ -111,6 +111,7 @@ func c02cases(tier string) []c02case {
 	for n := 1; n <= 2; n++ {
 		for _, hi := range []int{0, 3, 5} {
 			cs = append(cs, c02case{shape: "bnd", n: n, scen: "free", hist: c02hists[hi]})
+			cs = append(cs, c02case{shape: "subfork", n: n, scen: "free", hist: c02hists[hi]})
 		}
 	}
 	// enforced schedules
@@ -195,6 +196,25 @@ func c02graph(shape string, n int) *eng.Graph {
 			ex := g.Add("endEvent", fmt.Sprintf("ex%d", i), "")
 			g.Connect(b, x, nil)
 			g.Connect(x, ex, nil)
+		}
+	case "subfork":
+		// an embedded sub-process whose content forks WITHOUT joining: both inner branches run into the ONE inner end
+		// event; the sub-process — and with it the instance — is over only when every inner token has been consumed
+		for i := 0; i < n; i++ {
+			u := g.SubBegin("")
+			us := g.Add("startEvent", fmt.Sprintf("us%d", i), u.ID)
+			f := g.Add("parallelGateway", fmt.Sprintf("F%d", i), u.ID)
+			a := g.Add("task", fmt.Sprintf("A%d", i), u.ID)
+			b := g.Add("task", fmt.Sprintf("B%d", i), u.ID)
+			ue := g.Add("endEvent", fmt.Sprintf("ue%d", i), u.ID)
+			g.Connect(us, f, nil)
+			g.Connect(f, a, nil)
+			g.Connect(f, b, nil)
+			g.Connect(a, ue, nil)
+			g.Connect(b, ue, nil)
+			e := g.Add("endEvent", fmt.Sprintf("e%d", i), "")
+			g.Connect(starts[i], u, nil)
+			g.Connect(u, e, nil)
 		}
 	case "pjoin", "xmerge":
 		kind := "parallelGateway"
@@ -486,6 +506,12 @@ func c02run(out *rec.Out, c c02case, rng *rec.Rng, tier string, stats map[string
 				r.group(c02wait{"pre", false, 1, "tiny"}, c02tiny).Wait()
 				in.Quiesce(q)
 			}
+		}
+		if c.shape == "subfork" && len(p) == 1 && !bndWaited {
+			// one inner branch has reached the inner end event, the other still waits for its answer: a wait that must not succeed
+			bndWaited = true
+			r.group(c02wait{"pre", false, 1, "tiny"}, c02tiny).Wait()
+			in.Quiesce(q)
 		}
 		if !in.AnswerOK(pick, nil) {
 			break
